@@ -612,4 +612,427 @@ example : SortedBy rowCmp (([[.null], [.i32 1], [.i32 1], [.i32 3]] : List Row).
   unfold SortedBy; decide
 
 
+/-! ## merge join -/
+
+theorem gbkLoop_runsAux (ks : List (Row → Val)) (X : List Row) (cur : List Val) (acc : List Row)
+    (hcur : cur ≠ []) (hX : ∀ x ∈ X, keyOf ks x ≠ []) :
+    gbkLoop ks X cur acc = runsAux (keyOf ks) X cur acc := by
+  induction X generalizing cur acc with
+  | nil =>
+    unfold gbkLoop runsAux
+    have : cur.isEmpty = false := by cases cur <;> simp_all
+    simp [this]
+  | cons x xs ih =>
+    unfold gbkLoop runsAux
+    dsimp only
+    have hne : cur.isEmpty = false := by cases cur <;> simp_all
+    have hsym : (keyOf ks x != cur) = !(cur == keyOf ks x) := by
+      simp only [bne]
+      cases h : cur == keyOf ks x
+      · cases h2 : keyOf ks x == cur
+        · rfl
+        · rw [eq_of_beq h2] at h; simp at h
+      · rw [eq_of_beq h]; simp
+    rw [hsym]
+    by_cases h : cur == keyOf ks x
+    · simp only [h, Bool.not_true, Bool.false_eq_true, if_false, if_true]
+      exact ih cur _ hcur (fun y hy => hX y (List.mem_cons_of_mem _ hy))
+    · simp only [h, Bool.not_false, if_true, hne, Bool.false_eq_true, if_false, List.singleton_append]
+      rw [ih (keyOf ks x) [x] (hX x List.mem_cons_self) (fun y hy => hX y (List.mem_cons_of_mem _ hy))]
+
+/-- `group_by_keys` yields the maximal runs of adjacent equal keys — provided the key list is not
+empty (with an empty key list the initial `current_key = []` is never told apart and NOTHING is
+yielded: `mergejoin` on `(list)` keys returns no rows, `hashjoin` the cross product). -/
+theorem groupByKeys_eq_runs (ks : List (Row → Val)) (hks : ks ≠ []) (X : List Row) :
+    groupByKeys ks X = runs (keyOf ks) X := by
+  have hkey : ∀ x : Row, keyOf ks x ≠ [] := by
+    intro x; unfold keyOf; cases ks with
+    | nil => exact absurd rfl hks
+    | cons k ks => simp
+  unfold groupByKeys
+  cases X with
+  | nil => rfl
+  | cons x xs =>
+    unfold gbkLoop runs
+    dsimp only
+    have h1 : (keyOf ks x != ([] : List Val)) = true := by
+      have := hkey x
+      cases h : keyOf ks x with
+      | nil => exact absurd h this
+      | cons a as => rfl
+    simp only [h1, if_true, List.isEmpty_nil, List.nil_append]
+    exact gbkLoop_runsAux ks xs _ _ (hkey x) (fun y _ => hkey y)
+
+theorem groupByKeys_empty_keys (X : List Row) : groupByKeys [] X = [] := by
+  unfold groupByKeys
+  suffices h : ∀ acc, gbkLoop [] X [] acc = [] from h []
+  induction X with
+  | nil => intro acc; rfl
+  | cons x xs ih => intro acc; unfold gbkLoop; simp [keyOf, ih]
+
+/-- on sorted inputs the two group streams of the merge join are exactly the key groups, in strictly
+increasing key order: the same `(key, rows)` table the hash join builds (`hmBuild_struct`). -/
+theorem mergejoin_groups_sorted (ks : List (Row → Val)) (hks : ks ≠ []) (X : List Row)
+    (hs : SortedBy rowCmp (X.map (keyOf ks))) :
+    groupByKeys ks X = (dedup (X.map (keyOf ks))).map (fun k => (k, X.filter (fun x => keyOf ks x == k))) := by
+  rw [groupByKeys_eq_runs ks hks]
+  exact runs_sorted (keyOf ks) rowCmp rowCmp_lawful rowCmp_eq_iff X.length X (Nat.le_refl _) hs
+
+/-- merge join with an EMPTY key list returns nothing, hash join the cross product. -/
+theorem merge_eq_hash_empty_keys_unsound :
+    ¬ (∀ (Ls Rs : List Chunk), (flat (mergeJoin .inner [] [] 1 1 Ls Rs)).Perm (flat (hashJoin .inner [] [] 1 1 Ls Rs))) := by
+  intro h
+  have := (h [[[.i32 1]]] [[[.i32 2]]]).length_eq
+  revert this; decide
+
+
+def lookupG (k : List Val) (gs : List KGroup) : Option (List Row) := (gs.find? (fun g => g.1 == k)).map (·.2)
+
+def StrictInc (gs : List KGroup) : Prop := (gs.map (·.1)).Pairwise (fun a b => rowCmp a b = .lt)
+
+theorem rowCmp_lt_ne {a b : List Val} (h : rowCmp a b = .lt) : (a == b) = false := by
+  cases hab : a == b
+  · rfl
+  · rw [eq_of_beq hab, rowCmp_refl] at h; cases h
+
+theorem rowCmp_lt_ne' {a b : List Val} (h : rowCmp a b = .lt) : (b == a) = false := by
+  cases hab : b == a
+  · rfl
+  · rw [eq_of_beq hab, rowCmp_refl] at h; cases h
+
+theorem lookupG_none_of_lt (k rk : List Val) (rrows : List Row) (rs : List KGroup)
+    (hs : StrictInc ((rk, rrows) :: rs)) (h : rowCmp k rk = .lt) : lookupG k ((rk, rrows) :: rs) = none := by
+  unfold lookupG
+  rw [Option.map_eq_none_iff, List.find?_eq_none]
+  intro g hg
+  unfold StrictInc at hs
+  rw [List.map_cons, List.pairwise_cons] at hs
+  rcases List.mem_cons.mp hg with rfl | hg'
+  · simp [rowCmp_lt_ne' h]
+  · have h2 : rowCmp rk g.1 = .lt := hs.1 g.1 (List.mem_map_of_mem hg')
+    have h3 : rowCmp k g.1 = .lt := rowCmp_trans h h2
+    simp [rowCmp_lt_ne' h3]
+
+theorem lookupG_cons_ne (k rk : List Val) (rrows : List Row) (rs : List KGroup) (h : (rk == k) = false) :
+    lookupG k ((rk, rrows) :: rs) = lookupG k rs := by
+  unfold lookupG; simp [List.find?_cons, h]
+
+/-- what one left group contributes. -/
+def mergeF (pl : Bool) (nR : Nat) (rg : List KGroup) (g : KGroup) : List Row :=
+  match lookupG g.1 rg with
+  | some rrows => crossLR g.2 rrows
+  | none => if pl then g.2.map (· ++ nulls nR) else []
+
+/-- THE merge walk (inner / left outer: nothing is emitted for unmatched right groups): over two
+strictly increasing group streams the loop emits, left group by left group, the cross product with
+the right group of the same key, or the padded left rows when there is none. -/
+theorem mergeLoop_left (pl : Bool) (nL nR : Nat) :
+    ∀ (fuel : Nat) (lg rg : List KGroup), StrictInc lg → StrictInc rg → lg.length + rg.length ≤ fuel →
+      mergeLoop pl false nL nR fuel lg rg = lg.flatMap (mergeF pl nR rg) := by
+  intro fuel
+  induction fuel with
+  | zero =>
+    intro lg rg _ _ h
+    have h1 : lg = [] := List.eq_nil_of_length_eq_zero (by omega)
+    subst h1; simp [mergeLoop]
+  | succ fuel ih =>
+    intro lg rg hl hr hf
+    cases lg with
+    | nil =>
+      cases rg with
+      | nil => simp [mergeLoop]
+      | cons r rs =>
+        obtain ⟨rk, rrows⟩ := r
+        unfold mergeLoop
+        simp only [Bool.false_eq_true, if_false, List.nil_append, List.flatMap_nil]
+        have hr' : StrictInc rs := by
+          unfold StrictInc at hr ⊢; rw [List.map_cons, List.pairwise_cons] at hr; exact hr.2
+        have := ih [] rs hl hr' (by simp at hf ⊢; omega)
+        simpa using this
+    | cons l ls =>
+      obtain ⟨lk, lrows⟩ := l
+      have hl' : StrictInc ls := by
+        unfold StrictInc at hl ⊢; rw [List.map_cons, List.pairwise_cons] at hl; exact hl.2
+      have hlgt : ∀ g ∈ ls, rowCmp lk g.1 = .lt := by
+        intro g hg
+        unfold StrictInc at hl; rw [List.map_cons, List.pairwise_cons] at hl
+        exact hl.1 g.1 (List.mem_map_of_mem hg)
+      cases rg with
+      | nil =>
+        unfold mergeLoop
+        simp only [List.flatMap_cons]
+        rw [ih ls [] hl' hr (by simp at hf ⊢; omega)]
+        simp [mergeF, lookupG]
+      | cons r rs =>
+        obtain ⟨rk, rrows⟩ := r
+        have hr' : StrictInc rs := by
+          unfold StrictInc at hr ⊢; rw [List.map_cons, List.pairwise_cons] at hr; exact hr.2
+        unfold mergeLoop
+        simp only [List.flatMap_cons]
+        by_cases heq : lk == rk
+        · have e : lk = rk := eq_of_beq heq
+          simp only [heq, if_true]
+          rw [ih ls rs hl' hr' (by simp at hf ⊢; omega)]
+          have h1 : mergeF pl nR ((rk, rrows) :: rs) (lk, lrows) = crossLR lrows rrows := by
+            unfold mergeF lookupG
+            have : (rk == lk) = true := by rw [e]; exact BEq.rfl
+            simp [List.find?_cons, this]
+          rw [h1]
+          congr 1
+          apply flatMap_congr'
+          intro g hg
+          unfold mergeF
+          rw [lookupG_cons_ne g.1 rk rrows rs (by rw [← e]; exact rowCmp_lt_ne (hlgt g hg))]
+        · simp only [heq, Bool.false_eq_true, if_false]
+          cases hc : rowCmp lk rk with
+          | lt =>
+            simp only [beq_self_eq_true, if_true]
+            rw [ih ls ((rk, rrows) :: rs) hl' hr (by simp at hf ⊢; omega)]
+            have h1 : mergeF pl nR ((rk, rrows) :: rs) (lk, lrows) = if pl then lrows.map (· ++ nulls nR) else [] := by
+              unfold mergeF
+              rw [lookupG_none_of_lt lk rk rrows rs hr hc]
+            rw [h1]
+          | gt =>
+            have hne : (Ordering.gt == Ordering.lt) = false := rfl
+            simp only [hne, Bool.false_eq_true, if_false, beq_self_eq_true, if_true, List.nil_append]
+            rw [ih ((lk, lrows) :: ls) rs hl hr' (by simp at hf ⊢; omega)]
+            simp only [List.flatMap_cons]
+            have hrk : rowCmp rk lk = .lt := by
+              have := rowCmp_swap lk rk; rw [hc] at this; simpa using this
+            have hcong : ∀ g ∈ (lk, lrows) :: ls, mergeF pl nR rs g = mergeF pl nR ((rk, rrows) :: rs) g := by
+              intro g hg
+              unfold mergeF
+              have hlt : rowCmp rk g.1 = .lt := by
+                rcases List.mem_cons.mp hg with rfl | hg'
+                · exact hrk
+                · exact rowCmp_trans hrk (hlgt g hg')
+              rw [lookupG_cons_ne g.1 rk rrows rs (rowCmp_lt_ne hlt)]
+            rw [hcong _ List.mem_cons_self]
+            congr 1
+            apply flatMap_congr'
+            intro g hg
+            exact hcong g (List.mem_cons_of_mem _ hg)
+          | eq =>
+            exact absurd (by rw [(rowCmp_eq_iff lk rk).mp hc]; exact BEq.rfl) heq
+
+
+theorem beq_comm' {α} [BEq α] [LawfulBEq α] (a b : α) : (a == b) = (b == a) := by
+  cases h : a == b
+  · cases h2 : b == a
+    · rfl
+    · rw [eq_of_beq h2] at h; simp at h
+  · rw [eq_of_beq h]; simp
+
+/-- distinct keys of a sorted key list are strictly increasing. -/
+theorem dedup_sorted_strict (xs : List (List Val)) (hs : xs.Pairwise (fun a b => rowCmp a b ≠ .gt)) :
+    (dedup xs).Pairwise (fun a b => rowCmp a b = .lt) := by
+  induction xs with
+  | nil => simp [dedup]
+  | cons x xs ih =>
+    rw [List.pairwise_cons] at hs
+    simp only [dedup]
+    rw [List.pairwise_cons]
+    constructor
+    · intro y hy
+      obtain ⟨hy1, hy2⟩ := List.mem_filter.mp hy
+      have hmem := (mem_dedup xs y).mp hy1
+      have hle := hs.1 y hmem
+      cases hc : rowCmp x y with
+      | lt => rfl
+      | eq => rw [(rowCmp_eq_iff x y).mp hc] at hy2; simp at hy2
+      | gt => exact absurd hc hle
+    · exact (ih hs.2).sublist List.filter_sublist
+
+theorem strictInc_groups (key : Row → List Val) (X : List Row) (rowsOf : List Val → List Row)
+    (hs : SortedBy rowCmp (X.map key)) :
+    StrictInc ((dedup (X.map key)).map (fun k => (k, rowsOf k))) := by
+  unfold StrictInc
+  rw [List.map_map]
+  have : ((fun g : KGroup => g.1) ∘ fun k => (k, rowsOf k)) = id := rfl
+  rw [this, List.map_id]
+  exact dedup_sorted_strict _ hs
+
+theorem lookupG_groups (key : Row → List Val) (X : List Row) (k : List Val) :
+    lookupG k ((dedup (X.map key)).map (fun k => (k, X.filter (fun x => key x == k)))) =
+      if (X.map key).contains k then some (X.filter (fun x => key x == k)) else none := by
+  unfold lookupG
+  rw [← contains_dedup]
+  induction (dedup (X.map key)) with
+  | nil => rfl
+  | cons d ds ih =>
+    simp only [List.map_cons, List.find?_cons, List.contains_cons]
+    by_cases h : d == k
+    · have : (k == d) = true := by rw [beq_comm']; exact h
+      simp [h, this, eq_of_beq h]
+    · have : (k == d) = false := by rw [beq_comm']; simpa using h
+      simp only [h, this, Bool.false_or]
+      exact ih
+
+theorem crossLR_nil_right (ls : List Row) : crossLR ls [] = [] := by
+  unfold crossLR; induction ls with
+  | nil => rfl
+  | cons l ls ih => simp [ih]
+
+/-- inner merge join over sorted inputs, as a list: group by group of the left side, the cross
+product with the right rows of the same key. -/
+theorem mergejoin_inner_sorted (lk rk : List (Row → Val)) (hlk : lk ≠ []) (hrk : rk ≠ []) (nL nR : Nat)
+    (Ls Rs : List Chunk)
+    (hsl : SortedBy rowCmp ((flat Ls).map (keyOf lk))) (hsr : SortedBy rowCmp ((flat Rs).map (keyOf rk))) :
+    flat (mergeJoin .inner lk rk nL nR Ls Rs) =
+      (dedup ((flat Ls).map (keyOf lk))).flatMap (fun k =>
+        crossLR ((flat Ls).filter (fun l => keyOf lk l == k)) ((flat Rs).filter (fun r => keyOf rk r == k))) := by
+  unfold mergeJoin
+  simp only [show (JoinType.inner == JoinType.rightOuter || JoinType.inner == JoinType.fullOuter) = false from rfl,
+    show (JoinType.inner == JoinType.leftOuter || JoinType.inner == JoinType.fullOuter) = false from rfl]
+  rw [flat_emit, mergejoin_groups_sorted lk hlk _ hsl, mergejoin_groups_sorted rk hrk _ hsr]
+  rw [mergeLoop_left false nL nR _ _ _ (strictInc_groups _ _ _ hsl) (strictInc_groups _ _ _ hsr) (Nat.le_succ _)]
+  rw [List.flatMap_map]
+  apply flatMap_congr'
+  intro k _
+  simp only [Function.comp, mergeF]
+  rw [lookupG_groups]
+  by_cases hc : ((flat Rs).map (keyOf rk)).contains k
+  · rw [if_pos hc]
+  · rw [if_neg hc]
+    simp only [Bool.false_eq_true, if_false]
+    have : (flat Rs).filter (fun r => keyOf rk r == k) = [] := by
+      rw [List.filter_eq_nil_iff]
+      intro r hr hrk'
+      apply hc
+      rw [List.contains_iff_mem, ← eq_of_beq hrk']
+      exact List.mem_map_of_mem hr
+    rw [this, crossLR_nil_right]
+
+/-- `merge_eq_hash` (inner): on inputs sorted by their (non-empty) key lists the merge join returns
+the same bag as the hash join — NULL keys and mixed-width keys included (both use structural
+equality of the key vectors). -/
+theorem merge_eq_hash_inner (lk rk : List (Row → Val)) (hlk : lk ≠ []) (hrk : rk ≠ []) (nL nR : Nat)
+    (Ls Rs : List Chunk)
+    (hsl : SortedBy rowCmp ((flat Ls).map (keyOf lk))) (hsr : SortedBy rowCmp ((flat Rs).map (keyOf rk))) :
+    (flat (mergeJoin .inner lk rk nL nR Ls Rs)).Perm (flat (hashJoin .inner lk rk nL nR Ls Rs)) := by
+  rw [mergejoin_inner_sorted lk rk hlk hrk nL nR Ls Rs hsl hsr]
+  refine Perm.trans ?_ (hashjoin_inner_rows lk rk nL nR Ls Rs).symm
+  -- regroup the left rows by key
+  have hg := group_perm (keyOf lk) (flat Ls)
+  refine Perm.trans (Perm.of_eq ?_) (Perm.flatMap_right
+    (fun l => ((flat Rs).filter (fun r => keyOf lk l == keyOf rk r)).map (l ++ ·)) hg)
+  rw [List.flatMap_assoc]
+  apply flatMap_congr'
+  intro k _
+  unfold crossLR
+  apply flatMap_congr'
+  intro l hl
+  have hkl : keyOf lk l = k := eq_of_beq (List.mem_filter.mp hl).2
+  congr 1
+  apply List.filter_congr
+  intro r _
+  rw [hkl, beq_comm']
+
+theorem flatMap_ite_filter {α β} (c : α → Bool) (g : α → List β) (D : List α) :
+    D.flatMap (fun k => if c k then g k else []) = (D.filter c).flatMap g := by
+  induction D with
+  | nil => rfl
+  | cons d ds ih =>
+    simp only [List.flatMap_cons, List.filter_cons]
+    cases c d
+    · simp only [Bool.false_eq_true, if_false, List.nil_append]; exact ih
+    · simp only [if_true, List.flatMap_cons]; rw [ih]
+
+theorem regroup_inner (lk rk : List (Row → Val)) (L R : List Row) :
+    ((dedup (L.map (keyOf lk))).flatMap (fun k =>
+        crossLR (L.filter (fun l => keyOf lk l == k)) (R.filter (fun r => keyOf rk r == k)))).Perm
+      (L.flatMap (fun l => (R.filter (fun r => keyOf lk l == keyOf rk r)).map (l ++ ·))) := by
+  have hg := group_perm (keyOf lk) L
+  refine Perm.trans (Perm.of_eq ?_) (Perm.flatMap_right
+    (fun l => (R.filter (fun r => keyOf lk l == keyOf rk r)).map (l ++ ·)) hg)
+  rw [List.flatMap_assoc]
+  apply flatMap_congr'
+  intro k _
+  unfold crossLR
+  apply flatMap_congr'
+  intro l hl
+  have hkl : keyOf lk l = k := eq_of_beq (List.mem_filter.mp hl).2
+  congr 1
+  apply List.filter_congr
+  intro r _
+  rw [hkl, beq_comm']
+
+/-- `merge_eq_hash` (left outer). -/
+theorem merge_eq_hash_left_outer (lk rk : List (Row → Val)) (hlk : lk ≠ []) (hrk : rk ≠ []) (nL nR : Nat)
+    (Ls Rs : List Chunk)
+    (hsl : SortedBy rowCmp ((flat Ls).map (keyOf lk))) (hsr : SortedBy rowCmp ((flat Rs).map (keyOf rk))) :
+    (flat (mergeJoin .leftOuter lk rk nL nR Ls Rs)).Perm (flat (hashJoin .leftOuter lk rk nL nR Ls Rs)) := by
+  -- hash side
+  have hh : (flat (hashJoin .leftOuter lk rk nL nR Ls Rs)).Perm
+      ((flat Ls).flatMap (fun l => ((flat Rs).filter (fun r => keyOf lk l == keyOf rk r)).map (l ++ ·)) ++
+       ((flat Ls).filter (fun l => ((flat Rs).filter (fun r => keyOf lk l == keyOf rk r)).isEmpty)).map (· ++ nulls nR)) := by
+    unfold hashJoin
+    simp only [show (JoinType.leftOuter == JoinType.rightOuter || JoinType.leftOuter == JoinType.fullOuter) = false from rfl,
+      show (JoinType.leftOuter == JoinType.leftOuter || JoinType.leftOuter == JoinType.fullOuter) = true from rfl, if_true]
+    rw [flat_emit]
+    have h1 := probe_out_perm false lk rk nL (flat Ls) (flat Rs)
+    have h2 := hashjoin_rest_perm false lk rk nL nR (flat Ls) (flat Rs)
+    simp only [Bool.false_eq_true, if_false, List.append_nil] at h1
+    exact Perm.append h1 h2
+  refine Perm.trans ?_ hh.symm
+  -- merge side
+  unfold mergeJoin
+  simp only [show (JoinType.leftOuter == JoinType.rightOuter || JoinType.leftOuter == JoinType.fullOuter) = false from rfl,
+    show (JoinType.leftOuter == JoinType.leftOuter || JoinType.leftOuter == JoinType.fullOuter) = true from rfl]
+  rw [flat_emit, mergejoin_groups_sorted lk hlk _ hsl, mergejoin_groups_sorted rk hrk _ hsr]
+  rw [mergeLoop_left true nL nR _ _ _ (strictInc_groups _ _ _ hsl) (strictInc_groups _ _ _ hsr) (Nat.le_succ _)]
+  rw [List.flatMap_map]
+  have hsplit : (dedup ((flat Ls).map (keyOf lk))).flatMap
+        ((mergeF true nR ((dedup ((flat Rs).map (keyOf rk))).map (fun k => (k, (flat Rs).filter (fun x => keyOf rk x == k))))) ∘
+          fun k => (k, (flat Ls).filter (fun x => keyOf lk x == k))) =
+      (dedup ((flat Ls).map (keyOf lk))).flatMap (fun k =>
+        crossLR ((flat Ls).filter (fun l => keyOf lk l == k)) ((flat Rs).filter (fun r => keyOf rk r == k)) ++
+        (if ((flat Rs).filter (fun r => keyOf rk r == k)).isEmpty
+          then ((flat Ls).filter (fun l => keyOf lk l == k)).map (· ++ nulls nR) else [])) := by
+    apply flatMap_congr'
+    intro k _
+    simp only [Function.comp, mergeF]
+    rw [lookupG_groups]
+    by_cases hc : ((flat Rs).map (keyOf rk)).contains k
+    · rw [if_pos hc]
+      have hne : ((flat Rs).filter (fun r => keyOf rk r == k)).isEmpty = false := by
+        rw [List.contains_iff_mem] at hc
+        obtain ⟨r, hr, hrk'⟩ := List.mem_map.mp hc
+        cases hf : (flat Rs).filter (fun r => keyOf rk r == k) with
+        | nil =>
+          have : r ∈ (flat Rs).filter (fun r => keyOf rk r == k) := List.mem_filter.mpr ⟨hr, by rw [hrk']; exact BEq.rfl⟩
+          rw [hf] at this; cases this
+        | cons _ _ => rfl
+      simp [hne]
+    · rw [if_neg hc]
+      have : (flat Rs).filter (fun r => keyOf rk r == k) = [] := by
+        rw [List.filter_eq_nil_iff]
+        intro r hr hrk'
+        apply hc
+        rw [List.contains_iff_mem, ← eq_of_beq hrk']
+        exact List.mem_map_of_mem hr
+      simp [this, crossLR_nil_right]
+  refine (Perm.of_eq hsplit).trans ?_
+  refine (flatMap_append_perm _ _ _).trans ?_
+  refine Perm.append (regroup_inner lk rk (flat Ls) (flat Rs)) ?_
+  -- padded groups
+  have e2 : (dedup ((flat Ls).map (keyOf lk))).flatMap (fun k =>
+        if ((flat Rs).filter (fun r => keyOf rk r == k)).isEmpty
+          then ((flat Ls).filter (fun l => keyOf lk l == k)).map (· ++ nulls nR) else []) =
+      (((dedup ((flat Ls).map (keyOf lk))).filter (fun k => ((flat Rs).filter (fun r => keyOf rk r == k)).isEmpty)).flatMap
+        (fun k => (flat Ls).filter (fun l => keyOf lk l == k))).map (· ++ nulls nR) := by
+    rw [List.map_flatMap]
+    exact flatMap_ite_filter (fun k => ((flat Rs).filter (fun r => keyOf rk r == k)).isEmpty)
+      (fun k => ((flat Ls).filter (fun l => keyOf lk l == k)).map (· ++ nulls nR)) _
+  rw [e2]
+  refine (Perm.map _ (group_perm_filter (keyOf lk) (fun k => ((flat Rs).filter (fun r => keyOf rk r == k)).isEmpty) (flat Ls))).trans (Perm.of_eq ?_)
+  congr 1
+  apply List.filter_congr
+  intro l _
+  congr 1
+  apply List.filter_congr
+  intro r _
+  rw [beq_comm']
+
+
 end RlModel
